@@ -64,6 +64,7 @@ var c05PathItems = []c05PathItem{
 	{"arr[-1] AS al", "al", []c05Step{k("arr"), ix(-1)}},
 	{"arr[2] AS a2", "a2", []c05Step{k("arr"), ix(2)}},
 	{"d['x'] AS dx", "dx", []c05Step{k("d"), k("x")}},
+	{"d[' x '] AS dpad", "dpad", []c05Step{k("d"), k(" x ")}}, // a quoted key keeps its leading and trailing blanks
 	{"ds[1].x AS d1x", "d1x", []c05Step{k("ds"), ix(1), k("x")}},
 	{"ds[0]['x'] AS d0x", "d0x", []c05Step{k("ds"), ix(0), k("x")}},
 	{"m.n.o AS deep", "deep", []c05Step{k("m"), k("n"), k("o")}},
@@ -106,7 +107,7 @@ func (w c05PathWhere) pass(r Row) bool {
 func c05PathRows() []Row {
 	// typed slices and maps (what a Go caller builds without going through JSON) besides []any / map[string]any
 	arrs := []any{[]any{3, 1, 2}, []any{5}, []any{}, c04Missing, 7, []int{4, 6, 8}, []float64{2.5}} // a string is indexable (bytes): left out
-	dvals := []any{map[string]any{"x": 1}, map[string]any{"x": -1}, map[string]any{}, c04Missing, map[string]int{"x": 3}}
+	dvals := []any{map[string]any{"x": 1, " x ": 8}, map[string]any{"x": -1}, map[string]any{" x ": 5}, c04Missing, map[string]int{"x": 3}}
 	dss := []any{[]any{map[string]any{"x": 1}, map[string]any{"x": 2}}, []any{map[string]any{"x": 0}}, c04Missing, []map[string]any{{"x": 9}, {"x": 2}}}
 	mats := []any{[]any{[]any{1, 2}, []any{3, 4}}, c04Missing}
 	ms := []any{map[string]any{"n": map[string]any{"o": 7}}, map[string]any{"n": map[string]any{}}, c04Missing}
